@@ -87,6 +87,11 @@ def run(ctx, rep):
     rep.rule("R3.5", "the point kept in a filter entry stays the evaluated point (it does not alias solver state that is modified in place)")
     from .c02 import r28
     r28(ctx, rep, rule="R3.5")
+    rep.rule("R3.7", "the values the filter compares are the true ones: raw (not barrier-rewritten) objective values, violation aggregated with NaN-propagating maxima (see C02 R2.1, R2.6)")
+    from ..report import Renamed
+    from . import c02
+    c02.check_raw_values(ctx, Renamed(rep, to="R3.7"), "R3.7", c02.FILTER)
+    c02.r26(ctx, Renamed(rep, to="R3.7"))
     rep.rule("R3.6", "the settings of the filter/history/callback reach Problem through the right parameters (no swapped arguments)")
     k = common.check_swapped_args(ctx, rep, "R3.6", lambda g: g.cls is not None and g.cls.name == "Problem" or g.name == "_build_result")
     from . import c19
